@@ -90,6 +90,95 @@ pub fn run(scenario: &[Value], dir: &str, it: &mut Interner, out: &mut Vec<Value
                 drop(rln.take());
                 out.push(json!({"t": "drop", "k": k}));
             }
+            "crashrun" => {
+                // crash point: a CHILD process runs the history on the real location with H1 in abort mode (the
+                // process dies inside the K-th storage operation); this process replays the completed prefix on a
+                // shadow location (to have the acknowledged state as judged events) and then reopens the real one
+                drop(rln.take());
+                d = op["d"].as_u64().unwrap() as usize;
+                let hist: Vec<Value> = op["hist"].as_array().unwrap().clone();
+                let path = format!("{}/{}", dir, op["path"].as_str().unwrap());
+                let hp = format!("{path}.hist.json");
+                let lp = format!("{path}.log");
+                write_json(&hp, &json!(hist));
+                let mut cfg = op.get("cfg").cloned().unwrap_or(json!({}));
+                cfg["path"] = json!(path);
+                cfg["temporary"] = json!(false);
+                let exe = std::env::current_exe().unwrap();
+                let st = std::process::Command::new(exe)
+                    .args(["crash-child", "--d", &d.to_string(), "--cfg", &cfg.to_string(), "--k", &op["crash_at"].to_string(), "--hist", &hp, "--log", &lp])
+                    .stderr(std::process::Stdio::null())
+                    .status();
+                let log = std::fs::read_to_string(&lp).unwrap_or_default();
+                let completed = log.lines().filter(|l| l.starts_with("done")).count();
+                let opened = log.lines().any(|l| l.starts_with("opened"));
+                let finished = log.lines().any(|l| l.starts_with("finished"));
+                let aborted = !finished && !matches!(st, Ok(s) if s.success());
+                // shadow replay of what completed
+                touched.clear();
+                let mut scfg = op.get("cfg").cloned().unwrap_or(json!({}));
+                scfg["path"] = json!(format!("{path}.shadow"));
+                scfg["temporary"] = json!(false);
+                let mut ev = json!({"t": "open", "k": k, "tgt": "rln", "be": crate::BACKEND, "d": d, "path": format!("{}.shadow", op["path"].as_str().unwrap()),
+                                    "existed": false, "sops": 0, "fired": false, "ms": 0});
+                let mut shadow = None;
+                if opened {
+                    match catch(AssertUnwindSafe(|| new_rln(d, &scfg))) {
+                        Ok(Ok(mut r)) => {
+                            ev["res"] = json!("ok");
+                            ev["obs"] = observe(&mut r, d, &touched, it);
+                            shadow = Some(r);
+                        }
+                        _ => {
+                            ev["res"] = json!("err");
+                            ev["obs"] = json!({"broken": "no instance"});
+                        }
+                    }
+                    out.push(ev);
+                }
+                if let Some(r) = shadow.as_mut() {
+                    for h in hist.iter().take(completed) {
+                        let nb = r.leaves_set();
+                        crate::rln_exec::touched_by(h, nb, &mut touched, 1usize << d);
+                        let res = catch(AssertUnwindSafe(|| apply(r, h)));
+                        let mut ev = json!({"t": "op", "k": k, "tgt": "rln", "be": crate::BACKEND, "d": d, "op": h, "sops": 0, "fired": false});
+                        ev["res"] = match res { Ok(Ok(())) => json!("ok"), Ok(Err(_)) => json!("err"), Err(_) => json!("panic") };
+                        ev["obs"] = observe(r, d, &touched, it);
+                        out.push(ev);
+                    }
+                    if completed < hist.len() {
+                        // watch what the call in flight would have touched
+                        let nb = r.leaves_set();
+                        crate::rln_exec::touched_by(&hist[completed], nb, &mut touched, 1usize << d);
+                    }
+                }
+                drop(shadow);
+                let inflight = if !opened { json!({"c": "create"}) } else if completed < hist.len() { hist[completed].clone() } else { json!({"c": "flush"}) };
+                out.push(json!({"t": "crash", "k": k, "aborted": aborted, "completed": completed, "opened": opened, "inflight": inflight}));
+                // reopen the real location in THIS process
+                let t0 = Instant::now();
+                let r = catch(AssertUnwindSafe(|| new_rln(d, &cfg)));
+                let ms = t0.elapsed().as_millis() as u64;
+                let mut ev = json!({"t": "open", "k": k, "tgt": "rln", "be": crate::BACKEND, "d": d, "path": op["path"], "existed": true,
+                                    "sops": 0, "fired": false, "ms": ms, "after_crash": true});
+                match r {
+                    Ok(Ok(mut r)) => {
+                        ev["res"] = json!("ok");
+                        ev["obs"] = observe(&mut r, d, &touched, it);
+                    }
+                    Ok(Err(e)) => {
+                        ev["res"] = json!("err");
+                        ev["msg"] = json!(e.to_string().chars().take(200).collect::<String>());
+                        ev["obs"] = json!({"broken": "no instance"});
+                    }
+                    Err(m) => {
+                        ev["res"] = json!("panic");
+                        ev["msg"] = json!(m);
+                        ev["obs"] = json!({"broken": "no instance"});
+                    }
+                }
+                out.push(ev);
+            }
             _ => {
                 let Some(r) = rln.as_mut() else { continue };
                 // after the injected failure only flush/close are exercised on the live instance: the
@@ -135,5 +224,32 @@ pub fn run(scenario: &[Value], dir: &str, it: &mut Interner, out: &mut Vec<Value
         }
     }
     drop(rln.take());
+    hook::disarm();
+}
+
+
+/// child of a crash-point run: performs the history on the real location with H1 in ABORT mode; writes one
+/// progress line per completed call (flushed), so that the parent knows which call was in flight
+pub fn crash_child(d: usize, cfg: &Value, k: i64, hist: &[Value], log_path: &str) {
+    use std::io::Write;
+    let mut log = std::fs::File::create(log_path).unwrap();
+    hook::set_mode(1);
+    hook::arm(k - 1);
+    let mut r = match new_rln(d, cfg) {
+        Ok(r) => r,
+        Err(_) => {
+            let _ = writeln!(log, "openfailed");
+            return;
+        }
+    };
+    let _ = writeln!(log, "opened");
+    let _ = log.sync_all();
+    for h in hist {
+        let _ = catch(AssertUnwindSafe(|| apply(&mut r, h)));
+        let _ = writeln!(log, "done");
+        let _ = log.sync_all();
+    }
+    let _ = r.flush();
+    let _ = writeln!(log, "finished");
     hook::disarm();
 }
